@@ -325,3 +325,76 @@ def replay_view(payload):
     got_win = [x.src for x in view]
     return {'observed_field': got_full, 'expected_field': exp_full, 'observed_window': got_win, 'expected_window': W,
             'reproduced': got_full != exp_full or got_win != W}
+
+
+def entry_specs(prop='C03'):
+    """Thin FST entry points (insert / append / extend / prepend / prextend): the (start, stop) handed to _put_slice,
+    once normalised by the real fixup_slice_indices as every handler does, is the range the same list operation
+    designates (list.insert clamping, append at len, prepend at 0), so equivalent entry points reach the handler with
+    equal arguments.  Also fst:_swizzle_getput_params (positional field/stop swizzle)."""
+    from pyvc import frontend, sym
+    from pyvc.contract import Fragment, INT
+    from pyvc.interp import Interp, IFunc, SObj, PyRaise
+
+    def run(ctx, case, loc, pre, label):
+        m = case['m']
+        n = ctx.int('len_field')
+        ctx.assume(n >= 0)
+        calls = []
+        self = SObj('self', {}, a=SObj('a', {}))
+        self._set('_put_slice', lambda code, s, e, field, one=True, options=None: calls.append((s, e, field, one)) or self,
+                  count=False)
+        g = {'check_options': lambda o, *a, **k: o, 'fixup_field_body': lambda a, field, only_list: (field or 'body', None)}
+        it = Interp(g)
+        sw = frontend.locate('fst:_swizzle_getput_params')
+        it.globals['_swizzle_getput_params'] = IFunc(it, sw.node, None, '_swizzle_getput_params')
+        fix = IFunc(it, frontend.locate('fst_misc:fixup_slice_indices').node, None, 'fixup_slice_indices')
+        f = IFunc(it, loc.node, None, m)
+        if m == 'insert':
+            idx = ctx.int('idx') if case['idx'] == INT else case['idx']
+            it.call(f, (self, 'CODE', idx), {'field': 'elts'} if case.get('kwfield') else {})
+            p = pyinsert_pos(n, idx)
+            exp, exp_one = (p, p), True
+        elif m in ('append', 'extend'):
+            it.call(f, (self, 'CODE'))
+            exp, exp_one = (n, n), (True if m == 'append' else False)
+        else:
+            it.call(f, (self, 'CODE'))
+            exp, exp_one = (0, 0), (True if m == 'prepend' else False)
+        ctx.notes['outcome'] = 'return'
+        ok = len(calls) == 1
+        ctx.prove(f'{pre}.delegates_once[{label}]', ok)
+        if not ok:
+            return
+        s, e, field, one = calls[0]
+        got = it.call(fix, (n, s, e))
+        ctx.prove(f'{pre}.designation[{label}]', eq(tuple(got), exp),
+                  info='normalised (start, stop) == what the same operation designates on a Python list of that length')
+        ctx.prove(f'{pre}.one_flag[{label}]', one is exp_one)
+
+    def run_swizzle(ctx, case, loc, pre, label):
+        it = Interp({})
+        f = IFunc(it, loc.node, None, '_swizzle_getput_params')
+        start = ctx.int('start') if case['start'] == INT else case['start']
+        stop = ctx.int('stop') if case['stop'] == INT else case['stop']
+        r = it.call(f, (start, stop, case['field'], 'DS', 'DE'))
+        ctx.notes['outcome'] = 'return'
+        def is_field(x):
+            return isinstance(x, str) and x != 'end'
+        if is_field(start):
+            exp = ('DS', 'DE', start)
+        elif is_field(stop):
+            exp = (start, 'DE', stop)
+        else:
+            exp = (start, stop, case['field'])
+        ctx.prove(f'{pre}.post[{label}]', eq(tuple(r), exp))
+
+    out = []
+    for m in ('append', 'extend', 'prepend', 'prextend'):
+        out.append(Fragment(f'fst:FST.{m}', prop, f'entry.{m}', [dict(m=m)], run))
+    out.append(Fragment('fst:FST.insert', prop, 'entry.insert',
+                        [dict(m='insert', idx=i, kwfield=k) for i in (INT, 'end') for k in (False, True)], run))
+    vals = (INT, 'end', None, 'elts')
+    out.append(Fragment('fst:_swizzle_getput_params', prop, 'entry.swizzle',
+                        [dict(start=a, stop=b, field=c) for a in vals for b in vals for c in (None, 'body')], run_swizzle))
+    return out
